@@ -127,3 +127,12 @@ Fixpoint wf (v : value) : bool :=
   | VMap m => keys_unique (map fst m) && forallb (fun e => wf (snd e)) m
   | _ => true
   end.
+
+(* Hash as it was before the repair (Map entries visited in insertion order): kept to state the old defect. *)
+Fixpoint hash_stream_unrepaired (v : value) : list tok :=
+  match v with
+  | VArr l => TIsize 7 :: TUsize (Z.of_nat (length l)) :: flat_map hash_stream_unrepaired l
+  | VMap m => TIsize 8 :: TUsize (Z.of_nat (length m)) ::
+              flat_map (fun e => (hash_str (fst e) ++ hash_stream_unrepaired (snd e))%list) m
+  | _ => hash_stream v
+  end.
